@@ -251,7 +251,7 @@ def step (line : String) : String :=
     match minBS.toNat?, natList? lens, parseIDs ids, (splitList docs).mapM xhex? with
     | some minBS, some lens, some ids, some docs =>
       let clen := fun (i : Nat) (_ : List Nat) => lens.getD i 1
-      let w := (ids.zip docs).foldl (fun (w : Option DW) p => w.bind (fun w => writeDoc clen minBS w p.1 p.2)) (some DW.init)
+      let w := (ids.zip docs).foldl (fun (w : Option DW) p => w.bind (fun w => writeDoc clen (docBlockSizeOf minBS) w p.1 p.2)) (some DW.init)
       match w.map (flushDW clen) with
       | none => "panic"
       | some w =>
